@@ -99,19 +99,53 @@ Definition obs_calls (c : scan_case) : list (id * list call) := map (fun g => (o
 Definition pfail (f : gctx -> list call -> bool) (cs : list scan_case) : list nat :=
   indices_where (fun c => negb (for_groups f (sc_snap c) (obs_calls c))) cs 0.
 
+(* ---------- per-property correspondence: each property compares the part of the behaviour it speaks about ---------- *)
+(* (so that a change confined to another aspect of the behaviour is reported by the properties about that aspect, not by all) *)
+Definition st_none (a b : gstate) : bool := true.
+Definition st_lock (a b : gstate) : bool := lock_eqb (g_lock a) (g_lock b).
+Definition st_cache (a b : gstate) : bool :=
+  lock_eqb (g_lock a) (g_lock b) && pair_eqb Z.eqb Z.eqb (cache_view (g_cache a)) (cache_view (g_cache b)).
+
+Definition all_groups (c : scan_case) (name : id) : bool := true.
+Definition dry_groups (c : scan_case) (name : id) : bool :=
+  match find_group (sc_snap c) name with Some gi => s_dry (sc_snap c) || o_dry (gi_opts gi) | None => true end.
+
+Definition obs_group_eqbG (st : gstate -> gstate -> bool) (prov : bool) (proj : list call -> list call) (selected : bool) (a b : obs_group) : bool :=
+  (og_name a =? og_name b)
+  && (if selected then list_eqb call_eqb_mod (proj (og_calls a)) (proj (og_calls b)) && st (og_state a) (og_state b)
+                       && (if prov then (og_desired a =? og_desired b) && (og_tries a =? og_tries b) else true)
+      else true).
+
+Definition case_agreesG (sel : scan_case -> id -> bool) (st : gstate -> gstate -> bool) (prov : bool) (proj : list call -> list call) (c : scan_case) : bool :=
+  let '(mg, mo) := model_case c in
+  list_eqb (fun a b => obs_group_eqbG st prov proj (sel c (og_name b)) a b) mg (sc_obs c) && (mo =? sc_out c).
+
+Definition mismG sel st prov proj (cs : list scan_case) : list nat :=
+  indices_where (fun c => negb (case_agreesG sel st prov proj c)) cs 0.
+
+Definition payload_has_esc (c : call) : bool := match c with CK (KUpdate _ p _) => has_esc p | _ => false end.
+(* instance identities of terminations are dropped where only their number matters (the desired size follows them) *)
+Definition anon (c : call) : call := match c with CA (ATermInAsg _ d ok) => CA (ATermInAsg [] d ok) | _ => c end.
+(* taint writes: updates whose payload carries the escalator taint *)
+Definition pi_taint (l : list call) : list call := filter payload_has_esc l.
+(* reuse and buying: untaint writes, cloud increases, and how many terminations went before *)
+Definition pi_untaint_cloud (l : list call) : list call :=
+  map anon (filter (fun c => is_cloud_increase c || match c with CK (KUpdate _ p _) => negb (has_esc p) | CA (ATermInAsg _ _ _) => true | _ => false end) l).
+Definition pi_cloud_anon (l : list call) : list call := map anon (pi_cloud l).
+
 Definition mismatches_C01 := mism false pi_removal.   Definition propfail_C01 := pfail check_C01_group.
-Definition mismatches_C03 := mism false pi_updates.   Definition propfail_C03 := pfail check_C03_group.
-Definition mismatches_C04 := mism false pi_cloud.     Definition propfail_C04 := pfail check_C04_group.
+Definition mismatches_C03 := mism false pi_taint.   Definition propfail_C03 := pfail check_C03_group.
+Definition mismatches_C04 := mism false pi_cloud_anon.     Definition propfail_C04 := pfail check_C04_group.
 Definition mismatches_C06 := mism false pi_decision.
 Definition propfail_C06 := pfail (fun x calls => check_C06_group x calls && check_up_attempted x calls).
-Definition mismatches_C07 := mism false pi_reuse.
+Definition mismatches_C07 := mism false pi_untaint_cloud.
 Definition propfail_C07 := pfail (fun x calls => check_C07_group x calls && check_C07_exact x calls).
-Definition mismatches_C08 := mism false pi_updates.       Definition propfail_C08 := pfail check_C08_group.
-Definition mismatches_C09 := mism false pi_writes.    Definition propfail_C09 := pfail check_C09_group.
+Definition mismatches_C08 := mism false pi_taint.       Definition propfail_C08 := pfail check_C08_group.
+Definition mismatches_C09 := mism false pi_decision.    Definition propfail_C09 := pfail check_C09_group.
 Definition mismatches_C10 := mism false pi_removal.
 Definition propfail_C10 := pfail (fun x calls => check_C10_group x calls && check_C10_reuse x calls).
-Definition mismatches_C11 := mism true pi_writes.     Definition propfail_C11 := pfail check_C11_group.
-Definition mismatches_C12 := mism false pi_writes.
+Definition mismatches_C11 := mismG dry_groups gstate_eqb true pi_writes.     Definition propfail_C11 := pfail check_C11_group.
+Definition mismatches_C12 := mism false pi_none.
 (* C12 on an observed scan: every call stays inside its group; and the scan was not cut short by a panic (which skips every
    later group) *)
 Definition propfail_C12 (cs : list scan_case) : list nat :=
@@ -124,12 +158,12 @@ Definition mismatches_C19 := mism false pi_removal.
 Definition propfail_C19 (cs : list scan_case) : list nat :=
   indices_where (fun c => negb (for_groups check_C19_group (sc_snap c) (obs_calls c))
                           || ((snd (model_case c) =? 2) && negb (sc_out c =? 2))) cs 0.
-Definition mismatches_C02 := mism true pi_writes.
+Definition mismatches_C02 := mismG all_groups st_lock false pi_decision.
 Definition propfail_C02 (cs : list scan_case) : list nat :=
   indices_where (fun c => negb (forallb (fun g => match find_group (sc_snap c) (og_name g) with
                                                  | Some gi => check_C02_group (mk_ctx (sc_snap c) gi) (og_calls g) (og_state g)
                                                  | None => false end) (sc_obs c))) cs 0.
-Definition mismatches_C20 := mism true pi_none.
+Definition mismatches_C20 := mismG all_groups st_lock false pi_none.
 (* C20 on an observed scan: no panic (4); the main loop, started on a world whose first run returns an error, returned it and
    did not tick on (5); a scan that returned nil processed every configured group *)
 Definition propfail_C20 (cs : list scan_case) : list nat :=
@@ -159,7 +193,7 @@ Definition known_K3 (cs : list scan_case) : list nat :=
 
 (* C05, scan side: the scale-up composition (untaints + cloud request: the number of nodes brought into service is the
    needed number, the cloud being asked for exactly the remainder) and the node-size cache *)
-Definition mismatches_C05S := mism true pi_decision.
+Definition mismatches_C05S := mismG all_groups st_cache false pi_decision.
 Definition propfail_C05S (cs : list scan_case) : list nat :=
   indices_where (fun c => negb (forallb (fun g => match find_group (sc_snap c) (og_name g) with
                                                  | Some gi => check_C05_cache (mk_ctx (sc_snap c) gi) (gi_state gi) (og_state g)
